@@ -347,7 +347,7 @@ def build():
         3: dict(iter='it', invariant=inv(LEN('nested_type'), LEN('enum_type'), LEN('field'), IDX) + seqinv('oneof_decl') + [okn('msg.nested_type@.len()'), oke('msg.enum_type@.len()'), okf('msg.field@.len()'), oko('it.index@')]),
     }
     STEP = lambda A, B, C, D: 'proof { lemma_upto_steps(prefix@, *msg, %s, %s, %s, %s); }' % (A, B, C, D)
-    u.fn(M, 'process_message', within=W, decreases='msg', loops=loops,
+    u.fn(M, 'process_message', within=W, decreases='msg', loops=loops, body_edits=[r23_continue_guard],
          hints=[('before', 'self.process_message(fd.clone(), &message_name, nested)?;', '            ' + STEP(IDX, '0', '0', '0')),
                 ('before', 'self.process_enum(fd.clone(), &message_name, en)?;', '            ' + STEP(LEN('nested_type'), IDX, '0', '0')),
                 ('before', 'self.process_field(fd.clone(), &message_name, field)?;', '            ' + STEP(LEN('nested_type'), LEN('enum_type'), IDX, '0')),
@@ -384,7 +384,7 @@ def build():
     }
     FSTEP = lambda A, B, C: 'proof { lemma_file_steps(fd.t, %s, %s, %s); }' % (A, B, C)
     u.fn(M, 'process_file', within=W, loops=floops,
-         body_edits=[lambda t: t.sub_code('R17', r'fd\.package\.clone\(\)\.unwrap_or_default\(\)', 'verif_string_or_empty(&fd.package)'),
+         body_edits=[r23_continue_guard, lambda t: t.sub_code('R17', r'fd\.package\.clone\(\)\.unwrap_or_default\(\)', 'verif_string_or_empty(&fd.package)'),
                      lambda t: t.sub_code('R17', r'service_name\.clone\(\)', 'verif_clone_string(&service_name)')],
          hints=[('before', 'self.process_message(fd.clone(), prefix, msg)?;', '            ' + FSTEP(IDX, '0', '0')),
                 ('before', 'self.process_enum(fd.clone(), prefix, en)?;', '            ' + FSTEP(FL('message_type'), IDX, '0')),
